@@ -14,7 +14,7 @@ PROPERTY = 'C13'
 META = {
     'level': 'fault_enumeration',
     'technique': 'fault enumeration (byte-exact cut / withheld frame via a TCP relay) with a delivered-frames oracle and a unique-value pairing oracle on the result stream of the real client; recovery check of the proxy layer',
-    'text': 'An exchange of 6..12 operations (each reading a different element with a unique value) runs through client.connector.operate at depth 0/1/3 with bundling off and on. The fault-free '
+    'text': 'A reply lost entirely on a re-used connection (relay live mute between two identical exchanges) must raise rather than hand back the earlier answer; one bundled, pipelined setting is chosen so that its last bundle holds a single operation. An exchange of 6..12 operations (each reading a different element with a unique value) runs through client.connector.operate at depth 0/1/3 with bundling off and on. The fault-free '
             'length T of the server->client stream is measured, then the exchange is repeated with that stream cut at offsets 0..T (quick: every frame boundary -1/0/+1, header field boundaries '
             'inside each frame and a seeded sample; thorough: every offset), with the client->server stream cut likewise, and with each reply frame withheld in turn. Required: every yielded '
             'result equals the fault-free result of its own operation; the number of results never exceeds the operations covered by completely delivered reply frames; and if no exception is '
